@@ -1,3 +1,3 @@
 #!/bin/sh
 # replays this counterexample against the real build
-cd /tmp/seedonly_C13e_3632 && VERIF_SCRIPT=/verif/replays/C13/VHarnessNut10Deserialize_5dea1c54_0/script.json VERIF_RAW_SALT=0 GOFLAGS=-mod=mod GOPROXY=off go test -vet=off -count=1 -overlay /verif/replays/C13/VHarnessNut10Deserialize_5dea1c54_0/overlay.json -run ^TestVerifReplay_VHarnessNut10Deserialize$ -v ./cashu/nuts/nut10
+cd /tmp/seedrepo_C13e && VERIF_SCRIPT=/verif/replays/C13/VHarnessNut10Deserialize_5dea1c54_0/script.json VERIF_RAW_SALT=0 GOFLAGS=-mod=mod GOPROXY=off go test -vet=off -count=1 -overlay /verif/replays/C13/VHarnessNut10Deserialize_5dea1c54_0/overlay.json -run ^TestVerifReplay_VHarnessNut10Deserialize$ -v ./cashu/nuts/nut10
